@@ -985,6 +985,11 @@ def r01_4(ctx: Ctx):
     init = ctx.prog.own_method("AbstractDeme", "__init__")
     st = [n for n in body_walk(init.node) if isinstance(n, (ast.Assign, ast.AnnAssign)) and any(is_self_attr(t, "_bounds", init.self_name()) for t in (n.targets if isinstance(n, ast.Assign) else [n.target]))]
     idefs = local_defs(init)
+    if not st and ctx.prog.lookup_method(ctx.prog.cls("AbstractDeme"), "_bounds") is None:
+        # the field may have been renamed: the attribute that receives the level configuration's bounds
+        renamed = [n for n in body_walk(init.node) if isinstance(n, (ast.Assign, ast.AnnAssign)) and getattr(n, "value", None) is not None and canon(n.value, idefs).endswith((".config.bounds", ".config.problem.bounds")) and any(is_self_attr(t, None, init.self_name()) for t in (n.targets if isinstance(n, ast.Assign) else [n.target]))]
+        if renamed:
+            return [ctx.ob("R01.4", init, renamed[0], status=INCONCLUSIVE, detail=f"the deme keeps the level's bounds under another name (`{norm(renamed[0])[:60]}`): the uses of that field are not followed by this rule", construct="deme-bounds")]
     vt = canon(st[0].value, idefs) if len(st) == 1 else "?"
     bs = _box_status(st[0].value, init.self_name(), idefs) if len(st) == 1 else "unknown"
     status = OK if (len(st) == 1 and (vt.endswith(".config.bounds") or vt.endswith(".config.problem.bounds"))) else VIOLATION if (not st or bs in ("modified", "none")) else INCONCLUSIVE
